@@ -99,6 +99,8 @@ fn call(oracle: &str, v: &Value) -> Value {
         #[cfg(feature = "lsp")]
         "incan::static_type_nested" => c07::static_type_nested(v),
         #[cfg(feature = "lsp")]
+        "incan::static_type_sources" => c07::static_type_sources(v),
+        #[cfg(feature = "lsp")]
         "incan::emit_slice" => c05::emit_slice(v),
         #[cfg(feature = "lsp")]
         "incan::emit_division" => c05::emit_division(v),
@@ -116,6 +118,8 @@ fn call(oracle: &str, v: &Value) -> Value {
         "lsp::published_ranges" => server::published_ranges(v),
         #[cfg(feature = "lsp")]
         "lsp::dependency_ranges" => server::dependency_ranges(v),
+        #[cfg(feature = "lsp")]
+        "lsp::pipe_ranges" => server::pipe_ranges(v),
         "syntax::get_line_info" | "syntax::format_error_location" => {
             use incan_syntax::diagnostics::{format_error, CompileError};
             use incan_syntax::ast::Span;
@@ -171,6 +175,11 @@ mod server {
         "def f(a: int) -> int:\r\n    return a\r\n\r\ndef main() -> None:\r\n    println(f(1))\r\n",
         "enum Color:\n    Red\n    Green\n\ndef pick() -> Color:\n    return Color.Red\n\ndef main() -> None:\n    c = pick()\n",
         "def main() -> None:\n    x: int = 1 +\n",
+        // no final newline: the last declaration ends at the end of the text
+        "def f() -> int:\n    return 1",
+        "const A: int = 1\nconst LAST: int = 2",
+        // tab-indented body, decorated declaration at the end without a final newline
+        "def g() -> int:\n\treturn 1\n\n@derive(Eq)\nmodel CustomerAccountRecord:\n\tname: str",
     ];
 
     fn server() -> IncanLanguageServer {
@@ -386,6 +395,118 @@ mod server {
         }
     }
 
+    /// C19 bounded stand-in for EVERY request the server advertises (not only the handlers known today): the real server is
+    /// run over an in-memory pipe; after `initialize` each provider found in the advertised capabilities is queried
+    /// (document-wide requests once, position-based requests at a spread of cursor positions) and every `{start, end}`
+    /// range found anywhere in the answers must lie inside the document with start <= end.
+    pub fn pipe_ranges(v: &Value) -> Value {
+        use tokio::io::{AsyncReadExt, AsyncWriteExt};
+        let di = v["doc"].as_u64().unwrap() as usize % SERVER_DOCS.len();
+        let source = SERVER_DOCS[di].to_string();
+        let src2 = source.clone();
+        let got = guarded(move || {
+            let rt = tokio::runtime::Builder::new_current_thread().enable_all().build().unwrap();
+            rt.block_on(async {
+                let (service, socket) = LspService::new(IncanLanguageServer::new);
+                let (client_io, server_io) = tokio::io::duplex(1 << 22);
+                let (sr, sw) = tokio::io::split(server_io);
+                let server = tower_lsp::Server::new(sr, sw, socket).serve(service);
+                let (mut r, mut w) = tokio::io::split(client_io);
+                async fn send<W: tokio::io::AsyncWrite + Unpin>(w: &mut W, body: serde_json::Value) {
+                    let t = body.to_string();
+                    let _ = w.write_all(format!("Content-Length: {}\r\n\r\n{}", t.len(), t).as_bytes()).await;
+                    let _ = w.flush().await;
+                }
+                async fn recv<R: tokio::io::AsyncRead + Unpin>(r: &mut R) -> serde_json::Value {
+                    let mut header = Vec::new();
+                    while !header.ends_with(b"\r\n\r\n") { let mut b = [0u8; 1]; if r.read_exact(&mut b).await.is_err() { return json!(null); } header.push(b[0]); }
+                    let header = String::from_utf8_lossy(&header).to_string();
+                    let len: usize = header.lines().find_map(|l| l.strip_prefix("Content-Length: ")).and_then(|x| x.trim().parse().ok()).unwrap_or(0);
+                    let mut body = vec![0u8; len];
+                    if r.read_exact(&mut body).await.is_err() { return json!(null); }
+                    serde_json::from_slice(&body).unwrap_or(json!(null))
+                }
+                let uri = "file:///verif/main.incn";
+                let talk = async {
+                    send(&mut w, json!({"jsonrpc": "2.0", "id": 1, "method": "initialize", "params": {"capabilities": {}}})).await;
+                    let caps = loop { let m = recv(&mut r).await; if m.is_null() { return None; } if m["id"] == json!(1) { break m["result"]["capabilities"].clone(); } };
+                    send(&mut w, json!({"jsonrpc": "2.0", "method": "initialized", "params": {}})).await;
+                    send(&mut w, json!({"jsonrpc": "2.0", "method": "textDocument/didOpen", "params": {"textDocument": {"uri": uri, "languageId": "incan", "version": 1, "text": src2}}})).await;
+                    // wait until the document has been analysed (its diagnostics are published)
+                    loop { let m = recv(&mut r).await; if m.is_null() { return None; } if m["method"] == "textDocument/publishDiagnostics" && m["params"]["uri"] == uri { break; } }
+                    let advertised = |k: &str| -> bool { !(caps[k].is_null() || caps[k] == json!(false)) };
+                    // cursor positions: every line start, every 3rd character boundary, and the end of the text
+                    let mut cursors: Vec<(u32, u32)> = Vec::new();
+                    { let (mut l, mut c, mut n) = (0u32, 0u32, 0usize);
+                      for ch in src2.chars() { if c == 0 || n % 3 == 0 { cursors.push((l, c)); } if ch == '\n' { l += 1; c = 0 } else { c += 1 } n += 1; }
+                      cursors.push((l, c)); }
+                    let whole: [(&str, &str); 6] = [("documentSymbolProvider", "textDocument/documentSymbol"), ("foldingRangeProvider", "textDocument/foldingRange"),
+                        ("codeLensProvider", "textDocument/codeLens"), ("documentLinkProvider", "textDocument/documentLink"), ("colorProvider", "textDocument/documentColor"),
+                        ("documentFormattingProvider", "textDocument/formatting")];
+                    let at_pos: [(&str, &str); 9] = [("hoverProvider", "textDocument/hover"), ("definitionProvider", "textDocument/definition"), ("declarationProvider", "textDocument/declaration"),
+                        ("typeDefinitionProvider", "textDocument/typeDefinition"), ("implementationProvider", "textDocument/implementation"), ("referencesProvider", "textDocument/references"),
+                        ("documentHighlightProvider", "textDocument/documentHighlight"), ("renameProvider", "textDocument/prepareRename"), ("selectionRangeProvider", "textDocument/selectionRange")];
+                    let mut id = 10u64;
+                    let mut answers: Vec<(String, serde_json::Value)> = Vec::new();
+                    for (cap, method) in whole.iter() {
+                        if !advertised(cap) { continue; }
+                        id += 1;
+                        let mut params = json!({"textDocument": {"uri": uri}});
+                        if *method == "textDocument/formatting" { params["options"] = json!({"tabSize": 4, "insertSpaces": true}); }
+                        send(&mut w, json!({"jsonrpc": "2.0", "id": id, "method": method, "params": params})).await;
+                        loop { let m = recv(&mut r).await; if m.is_null() { return None; } if m["id"] == json!(id) { answers.push((method.to_string(), m["result"].clone())); break; } }
+                    }
+                    for (cap, method) in at_pos.iter() {
+                        if !advertised(cap) { continue; }
+                        for (l, c) in cursors.iter() {
+                            id += 1;
+                            let mut params = json!({"textDocument": {"uri": uri}, "position": {"line": l, "character": c}});
+                            if *method == "textDocument/references" { params["context"] = json!({"includeDeclaration": true}); }
+                            if *method == "textDocument/selectionRange" { params = json!({"textDocument": {"uri": uri}, "positions": [{"line": l, "character": c}]}); }
+                            send(&mut w, json!({"jsonrpc": "2.0", "id": id, "method": method, "params": params})).await;
+                            loop { let m = recv(&mut r).await; if m.is_null() { return None; } if m["id"] == json!(id) { answers.push((format!("{} at {}:{}", method, l, c), m["result"].clone())); break; } }
+                        }
+                    }
+                    Some(answers)
+                };
+                tokio::select! {
+                    _ = server => None,
+                    _ = tokio::time::sleep(std::time::Duration::from_secs(30)) => None,
+                    d = talk => d,
+                }
+            })
+        });
+        // every {start: {line, character}, end: {line, character}} object anywhere in an answer (for other documents' locations: skipped)
+        fn collect(v: &serde_json::Value, uri: &str, out: &mut Vec<Range>) {
+            match v {
+                serde_json::Value::Object(m) => {
+                    if let (Some(u), true) = (m.get("uri").and_then(|x| x.as_str()), m.contains_key("range")) { if u != uri { return; } }
+                    if let (Some(u), true) = (m.get("targetUri").and_then(|x| x.as_str()), m.contains_key("targetRange")) { if u != uri { return; } }
+                    let pos = |x: &serde_json::Value| -> Option<Position> { Some(Position::new(x.get("line")?.as_u64()? as u32, x.get("character")?.as_u64()? as u32)) };
+                    if let (Some(a), Some(b)) = (m.get("start").and_then(pos), m.get("end").and_then(pos)) { out.push(Range::new(a, b)); }
+                    for (_, x) in m.iter() { collect(x, uri, out); }
+                }
+                serde_json::Value::Array(a) => for x in a { collect(x, uri, out); },
+                _ => {}
+            }
+        }
+        let echo = json!({"doc": di, "source": source});
+        match &got {
+            Ok(Some(answers)) => {
+                let mut bad = Vec::new(); let mut n = 0usize;
+                for (what, ans) in answers {
+                    let mut rs = Vec::new(); collect(ans, "file:///verif/main.incn", &mut rs);
+                    n += rs.len();
+                    for r in rs { if !range_ok(&source, &r) && bad.len() < 6 { bad.push(json!({"request": what, "range": [[r.start.line, r.start.character], [r.end.line, r.end.character]]})); } }
+                }
+                verdict(bad.is_empty(), json!({"requests_answered": answers.len(), "ranges_seen": n, "outside_document_or_reversed": bad}),
+                        json!("every range in every answer: start <= end, both ends positions of the document"), &echo, "ranges answered for any advertised request lie inside the document")
+            }
+            Ok(None) => verdict(false, json!("the server did not answer within 30 s"), json!("answers to the advertised requests"), &echo, "the server must answer the requests it advertises"),
+            Err(m) => verdict(false, json!({"panicked": m}), json!("no panic"), &echo, "the server must not panic"),
+        }
+    }
+
     pub fn server_ranges(v: &Value) -> Value {
         let di = v["doc"].as_u64().unwrap() as usize % SERVER_DOCS.len();
         let source = SERVER_DOCS[di].to_string();
@@ -468,7 +589,10 @@ mod c05 {
         let rf = v["rfloat"].as_bool().unwrap();
         // form: plain `q = L op R`; compound on a local / a field / a list element; const initializer over literals
         let form = v["form"].as_str().unwrap_or(if v["compound"].as_bool().unwrap_or(false) { "local" } else { "plain" });
-        let compound = form != "plain" && form != "const";
+        // further plain-statement shapes: a bare expression statement, the operation inside int(..), parenthesised operands,
+        // a call result as the left operand, and the body of a lambda whose parameter has no declared type
+        let shape = matches!(form, "stmt" | "intcall" | "paren" | "call" | "lambda");
+        let compound = form != "plain" && form != "const" && !shape;
         let float = op == "/" || lf || rf;
         if compound && float != lf { return verdict(true, json!(null), json!(null), v, "compound form would change the target's kind: rejected by the checker (C07)"); }
         let r = if rf { "y" } else { "b" };
@@ -480,20 +604,36 @@ mod c05 {
             "local" => (if lf { "x2" } else { "a2" }.to_string(), if lf { "x2" } else { "a2" }.to_string()),
             "field" => (if lf { "acc.total" } else { "acc.n" }.to_string(), if lf { "acc.total" } else { "acc.n" }.to_string()),
             "index" => (if lf { "gs[0]" } else { "ys[0]" }.to_string(), if lf { "gs" } else { "ys" }.to_string()),
+            "stmt" | "intcall" | "paren" => (if lf { "x" } else { "a" }.to_string(), if lf { "x" } else { "a" }.to_string()),
+            "call" => (if lf { "halff(x)" } else { "half(a)" }.to_string(), if lf { "halffx" } else { "halfa" }.to_string()),
+            "lambda" => ("u".to_string(), "u".to_string()),
             _ => ("7".to_string(), "7".to_string()),
         };
+        if form == "lambda" && (op == "/" || lf) { return verdict(true, json!(null), json!(null), v, "lambda form: `//` and `%` with the untyped parameter on the left only"); }
         let src = if form == "const" {
             if lf || rf { return verdict(true, json!(null), json!(null), v, "const form uses int literals only"); }
             format!("const Q: {} = 7 {} -2\n\ndef main() -> None:\n    pass\n", if float { "float" } else { "int" }, op)
         } else {
-            let stmt = if compound { format!("    {} {}= {}\n", lsrc, op, r) } else { format!("    q = {} {} {}\n", lsrc, op, r) };
-            format!("model Acc:\n    total: float\n    n: int\n\ndef f(a: int, b: int, x: float, y: float, a0: Acc, fs: List[float], xs: List[int]) -> None:\n    mut a2: int = a\n    mut x2: float = x\n    mut acc: Acc = a0\n    mut gs: List[float] = fs\n    mut ys: List[int] = xs\n{}\ndef main() -> None:\n    pass\n", stmt)
+            let stmt = if compound { format!("    {} {}= {}\n", lsrc, op, r) } else {
+                match form {
+                    "stmt" => format!("    {} {} {}\n", lsrc, op, r),
+                    "intcall" => format!("    q = int({} {} {})\n", lsrc, op, r),
+                    "paren" => format!("    q = ({}) {} ({})\n", lsrc, op, r),
+                    "lambda" => format!("    g = (u) => u {} {}\n", op, r),
+                    _ => format!("    q = {} {} {}\n", lsrc, op, r),
+                }
+            };
+            format!("model Acc:\n    total: float\n    n: int\n\ndef half(v: int) -> int:\n    return v\n\ndef halff(v: float) -> float:\n    return v\n\ndef f(a: int, b: int, x: float, y: float, a0: Acc, fs: List[float], xs: List[int]) -> None:\n    mut a2: int = a\n    mut x2: float = x\n    mut acc: Acc = a0\n    mut gs: List[float] = fs\n    mut ys: List[int] = xs\n{}\ndef main() -> None:\n    pass\n", stmt)
         };
-        let helper = match (op, float) { ("/", _) => "py_div", ("//", false) => "py_floor_div_i64", ("//", true) => "py_floor_div_f64", (_, false) => "py_mod_i64", (_, true) => "py_mod_f64" };
+        let helper = if form == "lambda" { if op == "//" { "py_floor_div" } else { "py_mod" } } else {
+            match (op, float) { ("/", _) => "py_div", ("//", false) => "py_floor_div_i64", ("//", true) => "py_floor_div_f64", (_, false) => "py_mod_i64", (_, true) => "py_mod_f64" } };
         let rname = if form == "const" { "2".to_string() } else { r.to_string() };
-        let want = vec![(lname.clone(), float && !lf), (rname, float && !rf)];
+        // (an operand of unknown static type is passed on unconverted: the generic helper dispatches on the run-time type)
+        let want = if form == "lambda" { vec![(lname.clone(), false), (rname, false)] } else { vec![(lname.clone(), float && !lf), (rname, float && !rf)] };
         let arg_ok = |got: &str, (name, promoted): &(String, bool)| -> bool {
             got.contains(name.as_str()) && ((got.contains("f64") || got.contains("into")) == *promoted)
+                // an operand of unknown type must not be cast to an integer on the way (it may hold a float at run time)
+                && !(form == "lambda" && (got.contains("asi64") || got.contains("as i64")))
         };
         let got = guarded(|| {
             let tokens = incan::frontend::lexer::lex(&src).map_err(|e| format!("lex: {:?}", e.first().map(|x| x.message.clone())))?;
@@ -535,9 +675,10 @@ mod c05 {
         let ops = ["+", "-", "*", "**"];
         let op = ops[v["op"].as_u64().unwrap() as usize % 4];
         let lforms = [("a", false), ("x", true), ("it.qty", false), ("it.price", true)];
-        let rforms = [("a", false), ("x", true), ("it.qty", false), ("it.price", true), ("len(xs)", false), ("xs[0]", false), ("2", false), ("-2", false), ("b", false), ("64", false), ("19", false)];
+        let rforms = [("a", false), ("x", true), ("it.qty", false), ("it.price", true), ("len(xs)", false), ("xs[0]", false), ("2", false), ("-2", false), ("b", false), ("64", false), ("19", false),
+                      ("(it.qty)", false), ("(it.price)", true), ("(len(xs))", false)];
         let (l, lf) = lforms[v["l"].as_u64().unwrap() as usize % 4];
-        let (r, rf) = rforms[v["r"].as_u64().unwrap() as usize % 11];
+        let (r, rf) = rforms[v["r"].as_u64().unwrap() as usize % 14];
         // literal ** literal whose exact value does not fit i64 (`2 ** 64`, `10 ** 19`): still an int per the table
         let big_pow = r == "64" || r == "19";
         let l = if big_pow { if r == "64" { "2" } else { "10" } } else { l };
@@ -547,7 +688,9 @@ mod c05 {
         if op != "**" && (r == "2" || r == "-2" || r == "b" || big_pow) { return verdict(true, json!(null), json!(null), v, "literal / second-variable forms are used for ** only"); }
         if big_pow && v["l"].as_u64().unwrap() % 4 != 0 { return verdict(true, json!(null), json!(null), v, "literal base: one left form only"); }
         let float = if op == "**" { !(!lf && (r == "2" || big_pow)) } else { lf || rf };
-        let (lname, lfloat) = if compound { (if lf { "total" } else { "n" }, lf) } else { (l, lf) };
+        // `fieldtarget`: the compound assignment targets a FIELD of a local model value (`acc.total += r`), which the parser desugars
+        let fieldtarget = compound && v["fieldtarget"].as_bool().unwrap_or(false);
+        let (lname, lfloat) = if fieldtarget { (if lf { "acc.total" } else { "acc.n" }, lf) } else if compound { (if lf { "total" } else { "n" }, lf) } else { (l, lf) };
         if compound && float != lfloat { return verdict(true, json!(null), json!(null), v, "compound form would change the target's kind: rejected by the checker"); }
         if compound && l.contains('.') { return verdict(true, json!(null), json!(null), v, "compound target is a local"); }
         let stmt = if compound { format!("    {} {}= {}\n", lname, op, r) } else { format!("    q = {} {} {}\n", l, op, r) };
@@ -557,9 +700,9 @@ mod c05 {
         // of the function shadow them, so the arithmetic must still be numeric (never the const-folded `concat!`)
         let consts = if v["constshadow"].as_bool().unwrap_or(false) { "const a: str = \"s\"\nconst b: str = \"w\"\nconst x: str = \"t\"\nconst n: str = \"u\"\nconst total: str = \"v\"\n\n" } else { "" };
         let src = if shadow {
-            format!("model Item:\n    qty: int\n    price: float\n\ndef f(it: Item, xs: List[int], a: int, b: int, x: float) -> None:\n    mut total: int = 1\n    mut n: float = 0.5\n    if a > 0:\n        mut total: float = 0.5\n        mut n: int = 1\n    {}\ndef main() -> None:\n    pass\n", stmt)
+            format!("model Item:\n    qty: int\n    price: float\n\nmodel Acc:\n    total: float\n    n: int\n\ndef f(it: Item, xs: List[int], a: int, b: int, x: float, a0: Acc) -> None:\n    mut acc: Acc = a0\n    mut total: int = 1\n    mut n: float = 0.5\n    if a > 0:\n        mut total: float = 0.5\n        mut n: int = 1\n    {}\ndef main() -> None:\n    pass\n", stmt)
         } else {
-            format!("model Item:\n    qty: int\n    price: float\n\ndef f(it: Item, xs: List[int], a: int, b: int, x: float) -> None:\n    mut total: float = 0.5\n    mut n: int = 1\n{}\ndef main() -> None:\n    pass\n", stmt)
+            format!("model Item:\n    qty: int\n    price: float\n\nmodel Acc:\n    total: float\n    n: int\n\ndef f(it: Item, xs: List[int], a: int, b: int, x: float, a0: Acc) -> None:\n    mut acc: Acc = a0\n    mut total: float = 0.5\n    mut n: int = 1\n{}\ndef main() -> None:\n    pass\n", stmt)
         };
         let src = format!("{}{}", consts, src);
         let got = guarded(|| {
@@ -696,6 +839,39 @@ mod c05 {
         // extra index forms: element assignment `xs[i] = 5` (list_get_mut) and dict read `d[k]` (dict_get)
         if let Some(kind) = v["index_kind"].as_str() {
             let idx = bound_src(v["start"].as_str().unwrap_or("var"), "st").unwrap_or("st".to_string());
+            if kind == "context" {
+                // index / slice forms in further statement contexts: a nested assignment target, a `for` loop over a slice with
+                // literal bounds, and a read of a variable bound to a `match` expression over lists
+                let ctx = v["ctx"].as_u64().unwrap_or(0) % 6;
+                let (body, musts): (&str, Vec<&str>) = match ctx {
+                    0 => ("    mut g: List[List[int]] = grid\n    g[r][c] = 5\n", vec!["list_get_mut(&mut*incan_stdlib::collections::list_get_mut(&mutg,rasi64),casi64)=5"]),
+                    1 => ("    for x in xs[2:]:\n        println(x)\n", vec!["incan_stdlib::collections::list_slice(&xs,Some(2asi64),None,None)"]),
+                    2 => ("    for x in xs[:2]:\n        println(x)\n", vec!["incan_stdlib::collections::list_slice(&xs,None,Some(2asi64),None)"]),
+                    3 => ("    for x in xs[1:3]:\n        println(x)\n", vec!["incan_stdlib::collections::list_slice(&xs,Some(1asi64),Some(3asi64),None)"]),
+                    4 => ("    for ch in s[1:]:\n        println(ch)\n", vec!["incan_stdlib::strings::str_slice(&s,Some(1asi64),None,None)"]),
+                    _ => ("    rows = match opt:\n        Some(ys) => ys\n        None => []\n    println(rows[st])\n", vec!["incan_stdlib::collections::list_get(&rows,stasi64)"]),
+                };
+                let src = format!("def f(grid: List[List[int]], xs: List[int], s: str, opt: Option[List[int]], r: int, c: int, st: int) -> None:\n{}\ndef main() -> None:\n    pass\n", body);
+                let got = guarded(|| {
+                    let tokens = incan::frontend::lexer::lex(&src).map_err(|e| format!("lex: {:?}", e.first().map(|x| x.message.clone())))?;
+                    let prog = incan::frontend::parser::parse(&tokens).map_err(|e| format!("parse: {:?}", e.first().map(|x| x.message.clone())))?;
+                    incan::IrCodegen::new().try_generate(&prog).map_err(|e| format!("codegen: {}", e))
+                });
+                let echo = { let mut a = v.clone(); a["source"] = json!(src); a };
+                return match &got {
+                    Ok(Ok(code)) => {
+                        // compare modulo whitespace and parentheses around operands (spelling of the i64 conversion is `(x) as i64`)
+                        let flat: String = code.chars().filter(|c| !c.is_whitespace()).collect::<String>().replace("(r)as", "ras").replace("(c)as", "cas").replace("(st)as", "stas")
+                            .replace("(1)as", "1as").replace("(2)as", "2as").replace("(3)as", "3as").replace("i64::from(r)", "rasi64").replace("i64::from(c)", "casi64").replace("i64::from(st)", "stasi64")
+                            .replace(",)", ")");   // trailing commas of the pretty-printer
+                        let missing: Vec<&str> = musts.iter().filter(|m| !flat.contains(**m)).cloned().collect();
+                        verdict(missing.is_empty(), json!({"missing_in_generated_code": missing}), json!(musts), &echo,
+                                "the index / slice form goes through the runtime helper with the written operands also in this statement context")
+                    }
+                    Ok(Err(m)) => verdict(false, json!({"front_end_error": m}), json!(musts), &echo, "an index form must compile"),
+                    Err(m) => verdict(false, json!({"panicked": m}), json!(musts), &echo, "front end must not panic"),
+                };
+            }
             if kind == "fstring" {
                 // index / slice reads inside f-strings: the sub-expressions of different f-strings have the SAME spans (each is
                 // lexed from offset 0), so a type looked up by span may belong to another expression; every read must still go
@@ -989,6 +1165,36 @@ mod c07 {
         let f = match t["op"].as_str().unwrap() { "/" => true, "**" => !(!lf && !rf && rlit), _ => lf || rf };
         (f, false)
     }
+    /// C07 bounded stand-in for the typing of operands that come out of typed containers and builtins (zip / enumerate
+    /// components, list elements, dict values, len()): the annotated binding `y: T = SRC <op> 2` is accepted iff T is the table's
+    /// kind for (kind of SRC, int literal 2).
+    pub fn static_type_sources(v: &Value) -> Value {
+        let ops = ["+", "-", "*", "/", "//", "%", "**"];
+        let op = ops[v["op"].as_u64().unwrap() as usize % ops.len()];
+        let ann_float = v["ann_float"].as_bool().unwrap();
+        // (operand text, is float, loop header or "")
+        let sources: [(&str, bool, &str); 8] = [
+            ("pair.0", false, "for pair in zip(xs, fs):"), ("pair.1", true, "for pair in zip(xs, fs):"),
+            ("pair.0", false, "for pair in enumerate(fs):"), ("pair.1", true, "for pair in enumerate(fs):"),
+            ("xs[0]", false, ""), ("fs[0]", true, ""), ("d[\"k\"]", true, ""), ("len(fs)", false, ""),
+        ];
+        let (srcx, sf, header) = sources[v["src"].as_u64().unwrap() as usize % 8];
+        let float = match op { "/" => true, "**" => sf, _ => sf };
+        let ak = if ann_float { "float" } else { "int" };
+        let body = if header.is_empty() { format!("    y: {} = {} {} 2\n", ak, srcx, op) } else { format!("    {}\n        y: {} = {} {} 2\n", header, ak, srcx, op) };
+        let src = format!("def f(xs: List[int], fs: List[float], d: Dict[str, float]) -> None:\n{}\ndef main() -> None:\n    pass\n", body);
+        let got = guarded(|| {
+            let tokens = incan::frontend::lexer::lex(&src).map_err(|e| format!("lex: {:?}", e.first().map(|x| x.message.clone())))?;
+            let prog = incan::frontend::parser::parse(&tokens).map_err(|e| format!("parse: {:?}", e.first().map(|x| x.message.clone())))?;
+            Ok::<bool, String>(incan::frontend::typechecker::check(&prog).is_ok())
+        });
+        let must_accept = ann_float == float;
+        let ok = match &got { Ok(Ok(acc)) => *acc == must_accept, _ => false };
+        super::verdict(ok, match &got { Ok(Ok(a)) => json!({"accepted": a}), Ok(Err(m)) => json!({"front_end_error": m}), Err(m) => json!({"panicked": m}) },
+                json!({"table_type": if float { "float" } else { "int" }, "must_accept": must_accept}), &{ let mut a = v.clone(); a["source"] = json!(src); a },
+                "an operand taken out of a typed container / builtin has its element's numeric kind")
+    }
+
     pub fn static_type_nested(v: &Value) -> Value {
         let tree = &v["tree"];
         let cmp = v["cmp"].as_str();                 // optional comparison on top: tree <cmp> leaf
@@ -1084,7 +1290,8 @@ mod c07 {
 struct Rng(u64);
 impl Rng { fn next(&mut self) -> u64 { self.0 ^= self.0 << 13; self.0 ^= self.0 >> 7; self.0 ^= self.0 << 17; self.0 } fn below(&mut self, n: u64) -> u64 { self.next() % n } }
 const PIECES: &[&str] = &["a", "b", " ", "\n", "\r\n", "\r", "é", "日", "😀", "x = 1", "\t", "\u{0}", "ß", "\n\n", "𝒳"];
-const DOCS: &[&str] = &["", "a", "\n", "a\nb", "a\r\nb\r\n", "é", "😀", "x = \"ééé\" + y", "s = \"a😀b\"\nt", "def foo():\r\n    pass\r\n", "\n\n\n", "ab\n", "日本語\nテスト"];
+const DOCS: &[&str] = &["", "a", "\n", "a\nb", "a\r\nb\r\n", "é", "😀", "x = \"ééé\" + y", "s = \"a😀b\"\nt", "def foo():\r\n    pass\r\n", "\n\n\n", "ab\n", "日本語\nテスト",
+                        "def f() -> int:\n\treturn $\n", "\t\té = y\n\tz"];
 fn rdoc(r: &mut Rng, n: u64) -> String {
     if (n as usize) < DOCS.len() * 8 { return DOCS[(n as usize) / 8].to_string(); }
     let k = r.below(7); let mut s = String::new(); for _ in 0..k { s.push_str(PIECES[r.below(PIECES.len() as u64) as usize]); } s
@@ -1108,6 +1315,7 @@ fn search(oracle: &str, seed: u64, budget: u64, skip: &[String]) -> Value {
                 json!({"s": d, "start": st, "end": st})
             }
             "lsp::span_to_range" | "syntax::get_line_info" => { let a = roff(&mut r, &s); let b = roff(&mut r, &s); json!({"s": s, "start": a, "end": b}) }
+            "incan::static_type_sources" => { let k = n % 112; json!({"op": k % 7, "ann_float": (k / 7) % 2 == 1, "src": k / 14}) }
             "incan::static_type_nested" => {
                 // pseudo-random trees of depth <= 3 (seeded): bounded sample, not exhaustive
                 fn tree(r: &mut Rng, depth: u32) -> Value {
@@ -1131,13 +1339,14 @@ fn search(oracle: &str, seed: u64, budget: u64, skip: &[String]) -> Value {
                 json!({"op": k % 7, "lfloat": (k / 7) % 2 == 0, "rfloat": (k / 14) % 2 == 0, "ann_float": (k / 28) % 2 == 0, "form": forms[((k / 56) % 7) as usize], "position": pos[((k / 392) % 4) as usize], "wrap": (k / 1568) % 2 == 1, "spell": (k / 3136) % 3})
             }
             "incan::emit_promotion" => {
-                // exhaustive: 4 operators x 4 left forms x 11 right forms x plain/compound x flat/shadowing block x with/without
-                // module-level string constants of the same names = 1408 programs (inapplicable combinations are skipped)
-                let k = n % 1408;
-                json!({"op": k % 4, "l": (k / 4) % 4, "r": (k / 16) % 11, "compound": (k / 176) % 2 == 1, "shadow": (k / 352) % 2 == 1, "constshadow": (k / 704) % 2 == 1})
+                // exhaustive: 4 operators x 4 left forms x 14 right forms x plain/compound x flat/shadowing block x with/without
+                // module-level string constants of the same names x compound target local/field = 3584 programs (inapplicable combinations are skipped)
+                let k = n % 3584;
+                json!({"op": k % 4, "l": (k / 4) % 4, "r": (k / 16) % 14, "compound": (k / 224) % 2 == 1, "shadow": (k / 448) % 2 == 1, "constshadow": (k / 896) % 2 == 1, "fieldtarget": (k / 1792) % 2 == 1})
             }
             "lsp::published_ranges" => json!({"doc": n % 6}),
             "lsp::dependency_ranges" => { let k = n % 12; json!({"dep": k % 4, "entry": k / 4}) }
+            "lsp::pipe_ranges" => json!({"doc": n % 9}),
             "incan::fmt_error_location" => { let k = n % 15; json!({"prefix": k % 5, "lead": k / 5}) }
             "lsp::server_ranges" => {
                 // exhaustive: 6 fixed documents x every character boundary as the cursor
@@ -1170,10 +1379,11 @@ fn search(oracle: &str, seed: u64, budget: u64, skip: &[String]) -> Value {
                 else { let q = k - 30; json!({"arity": 3, "a": q / 25, "b": (q / 5) % 5, "c": q % 5}) }
             }
             "incan::emit_division" => {
-                // exhaustive: 3 operators x 2 x 2 operand kinds x 6 forms (plain, plain with a negated left operand, compound on local / field / list element, const initializer) = 72 programs
-                let forms = ["plain", "local", "field", "index", "const", "plain"];
-                let k = n % 72;
-                let fi = ((k / 12) % 6) as usize;
+                // exhaustive: 3 operators x 2 x 2 operand kinds x 11 forms (plain, plain with a negated left operand, compound on local / field / list element,
+                // const initializer, bare expression statement, inside int(..), parenthesised operands, call result on the left, lambda body) = 132 programs
+                let forms = ["plain", "local", "field", "index", "const", "plain", "stmt", "intcall", "paren", "call", "lambda"];
+                let k = n % 132;
+                let fi = ((k / 12) % 11) as usize;
                 json!({"op": k % 3, "lfloat": (k / 3) % 2 == 0, "rfloat": (k / 6) % 2 == 0, "form": forms[fi], "neg": fi == 5})
             }
             "incan::emit_slice" => 'g: {
@@ -1181,7 +1391,9 @@ fn search(oracle: &str, seed: u64, budget: u64, skip: &[String]) -> Value {
                 // plus 4 element-assignment forms, 1 dict read, 1 nested index and 1 dict compound assignment = 271
                 let kinds = ["none", "var", "zero", "neg"];
                 let steps = ["none", "var", "neg", "two"];
-                let k0 = n % 281;
+                let k0 = n % 287;
+                // ... plus 6 further statement contexts (nested assignment target, `for` over a literal-bound slice x4, match-bound list) = 287
+                if k0 >= 281 { break 'g json!({"index_kind": "context", "ctx": k0 - 281}); }
                 // ... plus 2 programs with an index / a slice read in two f-strings (colliding sub-expression spans) = 281
                 if k0 >= 279 { break 'g json!({"index_kind": "fstring", "slice": k0 == 280}); }
                 // ... plus 8 reads whose object is a field or a call result (4 objects x index / slice) = 279
